@@ -261,6 +261,115 @@ def cs_configs(tier):
     return [((4, 7), "call", 2), ((3, 6), "call", 2), ((6, 4), "call", 2), ((4, 6, 7), "call", 1), ((7, 4), "line", 1)]
 
 
+# ------------------------------------------------------------------ part M: schemas that carry a metaschema's id
+META_URL = {3: "http://json-schema.org/draft-03/schema", 4: "http://json-schema.org/draft-04/schema",
+            6: "http://json-schema.org/draft-06/schema", 7: "http://json-schema.org/draft-07/schema"}
+# Customised copies of a bundled metaschema keep its id: their base URI equals a registered metaschema id, and
+# the same pointer means something else in each of them and in the bundled document.
+M_PTR = {3: "#/properties/minLength", 4: "#/definitions/positiveInteger",
+         6: "#/definitions/nonNegativeInteger", 7: "#/definitions/nonNegativeInteger"}
+M_CUSTOM = [({"type": "string"}, ["x", 1, -1, None]), ({"type": "boolean"}, [True, "x", 0]), ({"maximum": 100}, [500, 5, "x"])]
+M_STOCK_INST = [{"minLength": -1, "maxLength": "x", "minItems": -2}, {"minLength": 3}]
+
+
+def m_schema(d, k):
+    idk = refmodel.IDK[d]
+    T = M_CUSTOM[k][0]
+    ptr = M_PTR[d]
+    parts = ptr[2:].split("/")
+    S = {idk: META_URL[d] + "#", parts[0]: {parts[1]: T}}
+    both = [{"$ref": ptr}, {"$ref": META_URL[d] + ptr}]
+    S["items"] = {("allOf" if d >= 4 else "extends"): both}
+    return S
+
+
+def m_validator(d, c):
+    cls = _e1.CLS[d]
+    if c == "stock":
+        return cls(cls.META_SCHEMA), None
+    S = m_schema(d, c)
+    return cls(S), None
+
+
+def m_instance(d, c, which=0):
+    if c == "stock":
+        return copy.deepcopy(M_STOCK_INST)
+    return copy.deepcopy(M_CUSTOM[c][1])
+
+
+_m_expected = {}
+
+
+def m_expected(d, c):
+    """custom copies: the reference-free equivalent; the bundled metaschema: recorded in the parent process
+    before any customised copy has been constructed (plan() calls this first)."""
+    key = (d, c)
+    if key not in _m_expected:
+        cls = _e1.CLS[d]
+        if c == "stock":
+            v = cls(cls.META_SCHEMA)
+            _m_expected[key] = [sorted(ident(e)[:3] for e in v.iter_errors(x)) for x in M_STOCK_INST]
+        else:
+            S = m_schema(d, c)
+            I = refmodel.inline(refmodel.World(d, S, {}), S)
+            _m_expected[key] = [(e.validator, e.message, tuple(e.absolute_path)) for e in cls(I).iter_errors(M_CUSTOM[c][1])]
+    return _m_expected[key]
+
+
+M_COMBOS = [(0, 1), (1, 0), (0, "stock"), ("stock", 1), (2, "stock", 0), ("stock", 0, 1)]
+
+
+def m_run(d, combo, order_kind):
+    """order_kind: which consumer is constructed / consumed first is given by the combo; consumption is either
+    sequential or alternating one error at a time."""
+    vals = [m_validator(d, c)[0] for c in combo]
+    got = [[] for _ in combo]
+    if order_kind == "sequential":
+        for i, c in enumerate(combo):
+            got[i] = _m_consume_all(vals[i], d, c)
+    else:
+        its = []
+        for i, c in enumerate(combo):
+            if c == "stock":
+                its.append(None)
+            else:
+                its.append(vals[i].iter_errors(m_instance(d, c)))
+        live = True
+        while live:
+            live = False
+            for i, c in enumerate(combo):
+                if its[i] is None:
+                    continue
+                try:
+                    e = next(its[i], None)
+                except Exception as ex:
+                    got[i].append(("EXC", type(ex).__name__, str(ex)[:60]))
+                    its[i] = None
+                    continue
+                if e is None:
+                    its[i] = None
+                else:
+                    got[i].append(ident(e)[:3])
+                    live = True
+        for i, c in enumerate(combo):
+            if c == "stock":
+                got[i] = _m_consume_all(vals[i], d, c)
+    problems = []
+    for i, c in enumerate(combo):
+        if got[i] != m_expected(d, c):
+            problems.append({"consumer": i, "which": c, "got": got[i], "expected": m_expected(d, c)})
+    return problems
+
+
+def _m_consume_all(v, d, c):
+    try:
+        if c == "stock":
+            return [sorted(ident(e)[:3] for e in v.iter_errors(x)) for x in m_instance(d, c)]
+        return [ident(e)[:3] for e in v.iter_errors(m_instance(d, c))]
+    except Exception as ex:
+        return [("EXC", type(ex).__name__, str(ex)[:60])]
+
+
 # ------------------------------------------------------------------ part D: cold start
 # The threads themselves construct resolver and validator, and the package is imported afresh for every
 # schedule, so that every lazily built module-level table is built *during* the explored schedule.
@@ -268,7 +377,6 @@ META_REF = {3: "http://json-schema.org/draft-03/schema#/properties/minLength",
             4: "http://json-schema.org/draft-04/schema#/definitions/positiveInteger",
             6: "http://json-schema.org/draft-06/schema#/definitions/nonNegativeInteger",
             7: "http://json-schema.org/draft-07/schema#/definitions/nonNegativeInteger"}
-META_URL = {d: META_REF[d].split("#")[0] for d in META_REF}
 
 
 def _pkg_modules():
@@ -420,6 +528,14 @@ def plan(ctx):
         chunk = max(1, n // 48)
         for lo in range(0, n, chunk):
             units.append(("CS", ci, lo, min(n, lo + chunk)))
+    for d in _e1.DRAFTS:
+        m_expected(d, "stock")          # before any customised copy exists in this process
+    for d in _e1.DRAFTS:
+        for k in range(len(M_CUSTOM)):
+            m_expected(d, k)
+        for ci in range(len(M_COMBOS)):
+            units.append(("M", d, ci))
+    sizes["partM_combinations"] = len(M_COMBOS)
     drafts_d = (7, 4) if ctx.tier == "quick" else _e1.DRAFTS
     with _Warm():
         for d in drafts_d:
@@ -442,7 +558,10 @@ def plan(ctx):
                  "combination of consumer programs (exhaust / take k then close) EVERY interleaving of their "
                  "next()/close() steps on fresh validators; part B: whole validations in 2-3 real threads under a "
                  "baton scheduler, every schedule with <= bound preemptions at call (and line) granularity, and "
-                 "check_schema of different draft classes in concurrent threads (the metaschemas use $ref); part D (cold "
+                 "check_schema of different draft classes in concurrent threads (the metaschemas use $ref); part M: "
+                 "customised copies of the bundled metaschema that keep its id (same pointer, other meaning) next to "
+                 "each other and to a validator of the bundled metaschema, constructed and consumed in every order "
+                 "of 6 combinations, sequentially and alternating; part D (cold "
                  "start): the package is imported afresh for every schedule and the threads themselves construct "
                  "resolver and validator (explicit resolver / implicit / module-level validate / check_schema), so "
                  "lazily built module-level tables are built under every explored schedule; each "
@@ -500,6 +619,23 @@ def run_unit(unit, ctx):
                 "outcomes": outcomes,
                 "counters": {"states": r["schedules"], "transitions": r["steps"],
                              "traces_validated_against_impl": r["schedules"], "checkschema_schedules": r["schedules"]}}
+    if unit[0] == "M":
+        _, d, ci = unit
+        combo = M_COMBOS[ci]
+        n = 0
+        for kind in ("sequential", "alternating"):
+            n += 1
+            probs = m_run(d, combo, kind)
+            key = "meta-id-agree" if not probs else "META-ID-DISAGREE"
+            outcomes[key] = outcomes.get(key, 0) + 1
+            if probs:
+                viol.append({"signature": "C18|same-id-as-a-metaschema|%s" % ("stock-affected" if any(
+                    p["which"] == "stock" for p in probs) else "customised-copy-affected"), "size": len(combo),
+                             "case": {"part": "M", "draft": d, "combo": list(combo), "consumption": kind},
+                             "detail": probs[:2]})
+        return {"evaluations": n, "nontrivial": n, "violations": viol, "samples": samples, "outcomes": outcomes,
+                "counters": {"states": n, "transitions": n * len(combo), "traces_validated_against_impl": n,
+                             "partM_runs": n}}
     if unit[0] == "D":
         _, d, di, lo, hi = unit
         consumers, gran, bound = cold_configs(ctx.tier)[di]
@@ -545,6 +681,11 @@ def replay(case, ctx):
         results, points = sc.run()
         bad = cs_check(drafts)(results)
         return {"reproduced": bad is not None, "problem": bad}
+    if case["part"] == "M":
+        for dd in _e1.DRAFTS:
+            m_expected(dd, "stock")     # as in plan(): the bundled metaschemas are used before any copy exists
+        probs = m_run(case["draft"], tuple(case["combo"]), case["consumption"])
+        return {"reproduced": bool(probs), "problems": probs[:2]}
     if case["part"] == "D":
         d = case["draft"]
         consumers = tuple((k, m) for k, m in case["consumers"])
